@@ -25,6 +25,9 @@ SelfEmbedding(T) ==
    \E n \in ReachNames(T) : \E x \in DOMAIN Defs(n).f :
       LET fd == Defs(n).f[x] IN Flattens(fd) /\ fd.t.k = "ptr" /\ fd.t.e = Named(n)
 
+RECURSIVE StripRootPtr(_)
+StripRootPtr(t) == IF t.k = "ptr" THEN StripRootPtr(t.e) ELSE t
+
 Last(p) == p[Len(p)]
 AtRef(f) == f.kind = "null_at_ref"
 AtDup(T, f) == f.p # <<>> /\ Last(f.p) \in DupNames(T) /\ f.kind \in {"type", "bound", "format", "null", "null_at_ref"}
@@ -35,7 +38,7 @@ MutualRec(T) ==
    \E n, m \in ReachNames(T) : n # m /\ m \in Reach({n}, 3) /\ n \in Reach({m}, 3)
 (* component names whose body is also the body of another component *)
 DupComps(comps) == {comps.k[i] : i \in {i \in DOMAIN comps.k : \E j \in DOMAIN comps.k : j # i /\ comps.v[j] = comps.v[i]}}
-Exporting(opt) == opt \in {"export", "exporttop", "useall_export"}
+Exporting(opt) == opt \in {"export", "exporttop", "useall_export", "tng_export", "tng_exporttop"}
 
 (* F-C18-1 / F-C18-2: a pointer position whose schema is a bare $ref (cycle cut, or       *)
 (* component export): nullable cannot be carried by the reference and the target is not    *)
@@ -59,7 +62,20 @@ ValueClass(line, i, fails, failed) ==
    ELSE "none"
 
 (* F-C18-4: field discovery recurses forever on a struct that embeds a pointer to itself *)
+(* F-C18-7: with a caller-supplied type-name generator the component of a declared type that   *)
+(* is only reached through cycle references (every cut type without component export; the      *)
+(* root type with export but without ExportTopLevelSchema) is looked up under its Go name and   *)
+(* never put into the caller's map: the references to the generated name do not resolve.        *)
 LineClass(line, failed) ==
    IF failed = "generator_died" /\ SelfEmbedding(line.T) THEN "self_embedded_pointer_diverges"
+   ELSE IF /\ failed = "references_do_not_resolve_in_component_map"
+           /\ line.opt \in {"tng", "tng_export"} /\ line.gen = "ok" /\ CompsWellFormed(line.comps)
+           /\ \A s \in AllS(line.S, line.comps) : ~Has(s, "refraw")
+           /\ MissingNames(line.S, line.comps) # {}
+           /\ MissingNames(line.S, line.comps) \subseteq
+                 {TypeNameOf(line.opt, n) : n \in IF line.opt = "tng" THEN ReachNames(line.T) \cap RecNames
+                                                   ELSE IF StripRootPtr(line.T).k = "named"
+                                                        THEN {StripRootPtr(line.T).n} \cap RecNames ELSE {}}
+        THEN "typename_generator_component_not_exported"
    ELSE "none"
 =============================================================================
